@@ -12,6 +12,7 @@ CONSTANTS
   RoaringTwoWrites = FALSE
   RowOpAsync = FALSE
   MultiSeparateWrites = FALSE
+  SnapTmpTruncated = TRUE
   Contentless = FALSE
 INIT Init
 NEXT Next
